@@ -20,7 +20,7 @@ ASSUMPTIONS = hc.COMMON_ASSUMPTIONS + [
 BOUNDS = {"points": 3, "ops_after": 2}
 from .c01 import h_wide  # noqa: E402
 
-HARNESS = {"h_remove": hc.h_remove, "h_wide": h_wide}
+HARNESS = {"h_remove": hc.h_remove, "h_wide": h_wide, "h_inv": hc.h_inv}
 
 REMOVAL_QUERIES = (
     [("time", OP, SYM), ("time_test", "ge", SYM), ("tag", "k", OP, SYM), ("tag_exists", "k"), ("tag_re", "k", "matches", "a|", 0), ("field", "f", OP, SYM), ("field_exists", "f"), ("meas", OP, SYM), ("noop", "tag"), ("field_map", "f", "f_neg", "<", SYM)]
@@ -73,6 +73,20 @@ def obligations(tier):
         for extra in ({}, {"two_meas": True, "mfilter": "m"}):
             o = {"id": f"wide/rm/{cname}{'/filter' if extra else ''}", "harness": "h_wide", "params": dict({"kind": "rm", "ai": ai, "reindex_pre": cname == "manual-pre", "n": 10 if th else 9}, **extra), "budget_s": 120 if not th else 600, "presets": {}}
             obs.append(o)
+    # multi-operation histories around a removal: [X, removal, Y] with contents, return values, the index
+    # invariant after every step and a final read (through the database, a filter or a handle)
+    removals = ["rm_tag", "rm_tag_ne", "rm_time", "rm_time_ge", "rm_notfield", "rm_filter_m", "rm_handle_n", "rmall_handle", "drop"]
+    before = ["ins", "insm", "upd_tags", "upd_time", "upd_meas", "rm_tag", "read", "reindex", "ins_notime"]
+    after = ["ins", "rm_time", "upd", "read_tag", "ins_handle"]
+    seq = []
+    for r in removals:
+        for x in before:
+            for y in after:
+                for ai in (True, False):
+                    ops = [hc.OPLIB[o] for o in ("ins", "ins", x, r, y)]
+                    fin = {"final_q": ("tag", "k", "!=", "zz"), "final_mfilter": "m"} if y in ("ins", "ins_handle") else {}
+                    seq.append({"id": f"seq/{'ai' if ai else 'noai'}/ins,ins,{x},{r},{y}", "harness": "h_inv", "params": dict({"ops": ops, "ai": ai, "alpha": "sel", "also": ["tag", "meas"] if (r in ("rm_filter_m", "rm_handle_n", "rmall_handle", "drop") or x == "upd_meas") else ["tag"], "torder": hc.seq_torder(("ins", "ins", x, r, y))}, **fin), "budget_s": 120 if not th else 600, "presets": {}})
+    obs.extend(hc.thin(seq, 270 if th else 44))
     csvq = [("time", OP, SYM), B, ("and", ("not", C), B), ("tag_exists", "k")] + ([("field", "f", OP, SYM), ("or", A, B)] if th else [])
     for q in csvq:
         for cname, ai, rx in CONFIGS[:2]:
